@@ -86,6 +86,9 @@ class HTTPProxyConnectionPool(ConnectionPool):
             _logger.debug('Connecting to proxy.')
 
             try:
+                # A connection from the pool that the proxy has closed in
+                # the meantime must be reset before it is connected again.
+                connection.reset()
                 yield from connection.connect()
 
                 if tunnel:
